@@ -95,6 +95,10 @@ def main(prop, prop_v, tier, seed, replay, scenarios, own_prefixes, known_prefix
                     if sc in PROBES and rep > 0 and tier == "quick":
                         continue   # expensive probes (1000+ submissions per history): once per quick run
                     jobs.append((seed * 1000 + k, sc)); k += 1
+            if tier == "quick" and prop == "C03":
+                # every crash position of a round x every crash position of the recovery, small tree (120 histories)
+                for base in range(0, 120, 30):
+                    jobs.append((seed * 1000 + 500 + base, "crashenum:%d" % base))
             if tier == "thorough" and prop in ("C01", "C02", "C03", "C04"):
                 # systematic crash placement: every crash position of a round x every crash position
                 # of the recovery, for a small tree and one crossing the first tile boundary
